@@ -59,6 +59,7 @@ type BedOpts struct {
 	VerifyClientCert bool
 	NoClientCA       bool   // with VerifyClientCert: no tls.ca configured (system roots decide)
 	ClientCAB        string // listener kinds "tlsB" / "httpsB": a second DoT / DoH listener whose client certificates must chain to this CA file instead
+	TcpSndBuf        int // so_sndbuf of the stream listeners (0 = kernel default with auto-tuning)
 	UdpRcvBuf        int
 	KeepRaw          bool // fake upstreams keep the wire bytes of every query
 }
@@ -290,6 +291,9 @@ func newBedOnce(c *Ctx, name string, o BedOpts) (*Bed, error) {
 		}
 		if kind == "udp" && o.UdpRcvBuf > 0 {
 			fmt.Fprintf(&y, "    socket:\n      so_rcvbuf: %d\n", o.UdpRcvBuf)
+		}
+		if (kind == "tcp" || kind == "gnet" || kind == "tls") && o.TcpSndBuf > 0 {
+			fmt.Fprintf(&y, "    socket:\n      so_sndbuf: %d\n", o.TcpSndBuf)
 		}
 		if (kind == "tcp" || kind == "gnet" || kind == "tls") && o.IdleTimeout > 0 {
 			fmt.Fprintf(&y, "    idle_timeout: %d\n", o.IdleTimeout)
